@@ -124,10 +124,15 @@ package lastgersync
 //@   trusted
 //@   modifies nothing
 //@   sqltext "SELECT num FROM block ORDER BY num DESC LIMIT 1;"
+// gerStoredLatest: the greatest L1 info tree index among the stored injected roots, -1 when none is stored
+//@ ghost var gerStoredLatest int
 //@ func (p *processor) getLatestL1InfoTreeIndex
 //@   props C16
 //@   trusted
 //@   modifies nothing
+//@   ensures result1 == nil ==> result0 == gerStoredLatest && gerStoredLatest >= 0
+//@   ensures (result1 != nil && isErr(result1, db.ErrNotFound)) ==> gerStoredLatest == -1
+//@   ensures result1 != nil ==> result0 == 0
 //@   sqltext "SELECT l1_info_tree_index FROM imported_global_exit_root ORDER BY l1_info_tree_index DESC LIMIT 1;"
 
 // ---- the legacy (FEP) downloader (C16): injected roots are not observed through events but by asking the L2 manager
@@ -217,11 +222,30 @@ package lastgersync
 //@   props C16
 //@   requires d != nil && d.l2GERManager != nil && d.rh != nil && b != nil && forall(k, 0, len(gerInfos), gerInfos[k] != nil)
 //@   modifies b.Events
+//@   ensures[unchanged-or-exactly-one-event-of-a-candidate] b.Events == old(b.Events) || (len(b.Events) == 1 && typeIs(b.Events[0], *Event) && cast(b.Events[0], *Event) != nil && cast(b.Events[0], *Event).GEREvent == nil && exists(k, 0, len(gerInfos), cast(b.Events[0], *Event).GERInfo == gerInfos[k]))
 //@   ensures[none-injected-keeps-the-block] forall(k, 0, len(gerInfos), l2GerValue(gerInfos[k].GlobalExitRoot) == 0) ==> b.Events == old(b.Events)
 //@   ensures[the-last-injected-candidate-is-reported] forall(k, 0, len(gerInfos), (l2GerValue(gerInfos[k].GlobalExitRoot) != 0 && forall(j, k + 1, len(gerInfos), l2GerValue(gerInfos[j].GlobalExitRoot) == 0)) ==> len(b.Events) == 1 && typeIs(b.Events[0], *Event) && cast(b.Events[0], *Event) != nil && cast(b.Events[0], *Event).GERInfo == gerInfos[k] && cast(b.Events[0], *Event).GEREvent == nil)
 //@   loop 0 invariant d != nil && d.l2GERManager != nil && d.rh != nil && b != nil && 0 <= rangeindex + 1 && rangeindex + 1 <= len(gerInfos)
 //@   loop 0 invariant forall(k, 0, rangeindex + 1, l2GerValue(gerInfos[k].GlobalExitRoot) == 0) ==> b.Events == old(b.Events)
+//@   loop 0 invariant (b.Events == old(b.Events) || (len(b.Events) == 1 && typeIs(b.Events[0], *Event) && cast(b.Events[0], *Event) != nil && cast(b.Events[0], *Event).GEREvent == nil && exists(k, 0, len(gerInfos), cast(b.Events[0], *Event).GERInfo == gerInfos[k])))
 //@   loop 0 invariant forall(k, 0, rangeindex + 1, (l2GerValue(gerInfos[k].GlobalExitRoot) != 0 && forall(j, k + 1, rangeindex + 1, l2GerValue(gerInfos[j].GlobalExitRoot) == 0)) ==> len(b.Events) == 1 && typeIs(b.Events[0], *Event) && cast(b.Events[0], *Event) != nil && cast(b.Events[0], *Event).GERInfo == gerInfos[k] && cast(b.Events[0], *Event).GEREvent == nil)
 //@   loop 1 invariant d != nil && d.l2GERManager != nil && d.rh != nil && b != nil && 0 <= rangeindex + 1 && rangeindex + 1 < len(gerInfos) && gerInfo == gerInfos[rangeindex + 1]
 //@   loop 1 invariant forall(k, 0, rangeindex + 1, l2GerValue(gerInfos[k].GlobalExitRoot) == 0) ==> b.Events == old(b.Events)
+//@   loop 1 invariant (b.Events == old(b.Events) || (len(b.Events) == 1 && typeIs(b.Events[0], *Event) && cast(b.Events[0], *Event) != nil && cast(b.Events[0], *Event).GEREvent == nil && exists(k, 0, len(gerInfos), cast(b.Events[0], *Event).GERInfo == gerInfos[k])))
 //@   loop 1 invariant forall(k, 0, rangeindex + 1, (l2GerValue(gerInfos[k].GlobalExitRoot) != 0 && forall(j, k + 1, rangeindex + 1, l2GerValue(gerInfos[j].GlobalExitRoot) == 0)) ==> len(b.Events) == 1 && typeIs(b.Events[0], *Event) && cast(b.Events[0], *Event) != nil && cast(b.Events[0], *Event).GERInfo == gerInfos[k] && cast(b.Events[0], *Event).GEREvent == nil)
+
+// ---- the FEP download loop (C16): the candidates asked for never start beyond the index after the greatest one
+// already stored (so no injected root in between is passed over; starting lower only re-examines roots), every block
+// handed on is the header of the head just waited for, carries what populateGreatestInjectedGER selected among exactly
+// those candidates, and is sent once.
+//@ func (d *downloaderFEP) Download
+//@   props C16
+//@   requires d != nil && d.processor != nil && d.rh != nil && d.l1InfoTreeSync != nil && d.l2GERManager != nil && d.EVMDownloaderImplementation != nil && d.EVMDownloaderImplementation.ethClient != nil && d.EVMDownloaderImplementation.log != nil && d.EVMDownloaderImplementation.rh != nil
+//@   requires 0 <= gerL1LastIndex && gerL1LastIndex < 4294967295 && gerStoredLatest <= gerL1LastIndex
+//@   modifies heap, ctxEnded, hdrCancelled, hdrLastErrCanceled
+//@   assert call:getGERsFromIndex arg0 == d && arg2 == nextL1InfoTreeIndex
+//@   assert call:populateGreatestInjectedGER arg0 == d && arg1 == block && arg2 == gers && block.Num == header.Num && block.Hash == header.Hash
+//@   loop 1 invariant d != nil && d.processor != nil && d.rh != nil
+//@   loop 0 invariant d != nil && d.processor != nil && d.rh != nil && d.l1InfoTreeSync != nil && d.l2GERManager != nil && d.EVMDownloaderImplementation != nil && d.EVMDownloaderImplementation.ethClient != nil && d.EVMDownloaderImplementation.log != nil && d.EVMDownloaderImplementation.rh != nil
+//@   loop 0 invariant[candidates-never-start-beyond-the-index-after-the-last-stored-one] nextL1InfoTreeIndex <= gerStoredLatest + 1 && nextL1InfoTreeIndex >= 0
+//@   loop 2 invariant d != nil && d.rh != nil && d.l1InfoTreeSync != nil && nextL1InfoTreeIndex <= gerStoredLatest + 1
